@@ -11,6 +11,11 @@
 //! a decoded container that does not re-encode to the input, a validation verdict that changes
 //! between calls, a panic (decode / validate / execution of an accepted container).
 //!
+//! Optional fields of the operation: `inputs` (list of call-data byte strings) and `gases` (list of gas
+//! limits) replace the default palette used when an accepted container is executed.
+//! An accepted container that halts with StackUnderflow / OpcodeNotFound / InvalidJump / NotActivated
+//! is a breach too: EIP-3670 / EIP-5450 validation exists to make exactly these impossible.
+//!
 //! `eof edges <in.ndjson> <out.ndjson> [stats=<file>]`
 #[path = "../common.rs"]
 mod common;
@@ -18,7 +23,7 @@ use common::*;
 use revm::db::{CacheDB, EmptyDB};
 use revm::interpreter::analysis::{validate_eof, validate_eof_inner, validate_raw_eof, validate_raw_eof_inner, CodeType};
 use revm::primitives::{
-    AccountInfo, Address, Bytecode, Bytes, Eof, ExecutionResult, Output, SpecId, TxKind, KECCAK_EMPTY, U256,
+    AccountInfo, Address, Bytecode, Bytes, Eof, ExecutionResult, HaltReason, Output, SpecId, TxKind, KECCAK_EMPTY, U256,
 };
 use revm::Evm;
 use serde_json::{json, Value};
@@ -68,11 +73,17 @@ impl EofEngine {
     }
 
     /// Execute an accepted container; returns the panic messages (empty = none).
-    fn execute(&self, eof: &Eof, mode: &str, breaches: &mut Vec<String>) {
+    fn execute(&self, eof: &Eof, mode: &str, op: &Value, breaches: &mut Vec<String>) {
         let caller = addr(0xCA11);
         let target = addr(0xEE);
-        let inputs: [Vec<u8>; 3] = [vec![], vec![0u8; 32], (1u8..=40).collect()];
-        let gases: [u64; 5] = [21_000, 21_700, 60_000, 100_000, 2_000_000];
+        let inputs: Vec<Vec<u8>> = match op.get("inputs").and_then(|v| v.as_array()) {
+            Some(a) => a.iter().map(bytes_of).collect(),
+            None => vec![vec![], vec![0u8; 32], (1u8..=40).collect()],
+        };
+        let gases: Vec<u64> = match op.get("gases").and_then(|v| v.as_array()) {
+            Some(a) => a.iter().map(|x| x.as_u64().unwrap()).collect(),
+            None => vec![21_000, 21_700, 60_000, 100_000, 2_000_000],
+        };
         for input in inputs.iter() {
             for gas in gases.iter() {
                 let r = catch_unwind(AssertUnwindSafe(|| {
@@ -111,6 +122,7 @@ impl EofEngine {
                                     evm.context.evm.env.tx.nonce = None;
                                     match evm.transact_commit() {
                                         Ok(ExecutionResult::Success { .. }) => "success_then_call_success",
+                                        Ok(ExecutionResult::Halt { reason, .. }) if is_impossible_halt(halt_kind(&reason)) => halt_kind(&reason),
                                         Ok(_) => "success_then_call_failed",
                                         Err(_) => "success_then_call_tx_error",
                                     }
@@ -119,13 +131,21 @@ impl EofEngine {
                                 }
                             }
                             ExecutionResult::Revert { .. } => "revert",
-                            ExecutionResult::Halt { .. } => "halt",
+                            ExecutionResult::Halt { reason, .. } => halt_kind(&reason),
                         },
                         Err(_) => "tx_error",
                     }
                 }));
                 match r {
-                    Ok(kind) => self.bump(&format!("exec_{mode}_{kind}")),
+                    Ok(kind) => {
+                        self.bump(&format!("exec_{mode}_{kind}"));
+                        if is_impossible_halt(kind) {
+                            let m = format!("accepted {mode} container halts with {}", &kind[5..]);
+                            if !breaches.contains(&m) {
+                                breaches.push(m);
+                            }
+                        }
+                    }
                     Err(p) => {
                         self.bump(&format!("exec_{mode}_panic"));
                         let m = format!("panic executing accepted {mode} container: {}", pmsg(p));
@@ -137,6 +157,22 @@ impl EofEngine {
             }
         }
     }
+}
+
+/// Halts that validated EOF code can never produce are named in capitals (and reported as breaches).
+fn halt_kind(reason: &HaltReason) -> &'static str {
+    match reason {
+        HaltReason::StackUnderflow => "halt_STACK_UNDERFLOW",
+        HaltReason::OpcodeNotFound => "halt_OPCODE_NOT_FOUND",
+        HaltReason::InvalidJump => "halt_INVALID_JUMP",
+        HaltReason::NotActivated => "halt_NOT_ACTIVATED",
+        HaltReason::OutOfGas(_) => "halt_oog",
+        _ => "halt",
+    }
+}
+
+fn is_impossible_halt(kind: &str) -> bool {
+    kind.starts_with("halt_") && kind != "halt_oog"
 }
 
 fn pmsg(e: Box<dyn std::any::Any + Send>) -> String {
@@ -282,7 +318,7 @@ impl Engine for EofEngine {
             // ---- part 2: accepted => executes without panicking
             if acc {
                 if let Some(e) = &dec {
-                    self.execute(e, mode, &mut breaches);
+                    self.execute(e, mode, op, &mut breaches);
                 }
             }
         }
